@@ -1475,6 +1475,7 @@ func (n *FunctionNode) MarshalJSON() ([]byte, error) {
 	props := JSONNode{}.
 		Type("func").
 		SetFunctionType("functionType", n.Type).
+		Set("func", n.Func).
 		Set("args", n.Args)
 	return json.Marshal(&props)
 }
@@ -1491,6 +1492,13 @@ func (n *FunctionNode) unmarshal(props JSONNode) error {
 
 	if n.Type, err = props.FunctionType("functionType"); err != nil {
 		return err
+	}
+
+	// The name of the function, absent in documents written by older versions.
+	if props.Has("func") {
+		if n.Func, err = props.String("func"); err != nil {
+			return err
+		}
 	}
 
 	return nil
